@@ -123,6 +123,24 @@ impl State {
         let ids: Vec<usize> = runnable.iter().map(|t| usize::from(t.id())).collect();
         let cur = current.map(usize::from);
 
+        // stall filter
+        let mut cands: Vec<usize> = Vec::with_capacity(ids.len());
+        let mut withheld: Option<Role> = None;
+        for id in &ids {
+            match self.stalled(*id) {
+                Some(r) => withheld = Some(r),
+                None => cands.push(*id),
+            }
+        }
+        if let Some(r) = withheld {
+            if cands.is_empty() {
+                *self.rec.forced_breaks.entry(r.name()).or_insert(0) += 1;
+                cands = ids.clone();
+            } else {
+                *self.rec.stall_steps.entry(r.name()).or_insert(0) += 1;
+            }
+        }
+
         // replay
         if let Some(choices) = &self.spec.choices {
             if self.replay_pos < choices.len() {
@@ -143,24 +161,6 @@ impl State {
                 self.rec.diverged = Some(format!("step {}: recorded choice list exhausted", self.rec.steps));
             }
             // fall through to the mode
-        }
-
-        // stall filter
-        let mut cands: Vec<usize> = Vec::with_capacity(ids.len());
-        let mut withheld: Option<Role> = None;
-        for id in &ids {
-            match self.stalled(*id) {
-                Some(r) => withheld = Some(r),
-                None => cands.push(*id),
-            }
-        }
-        if let Some(r) = withheld {
-            if cands.is_empty() {
-                *self.rec.forced_breaks.entry(r.name()).or_insert(0) += 1;
-                cands = ids.clone();
-            } else {
-                *self.rec.stall_steps.entry(r.name()).or_insert(0) += 1;
-            }
         }
 
         let choice = match self.spec.mode {
